@@ -291,9 +291,23 @@ def r7_refusals_in_loop(ctx):
             n += 1
             key = "mkdir_all:loop-refusal:%s:%d" % (s_.rv.get("variant"), sum(1 for i in out if i.key.startswith("mkdir_all:loop-refusal:%s" % s_.rv.get("variant"))))
             bad = []
-            for (a, _ek) in cd.get(x, ()):
-                if a not in region and a != h:
-                    continue
+            # transitive control dependences inside the iteration (a refusal behind `if helper(..)? { .. }` depends on
+            # whatever decided the helper's answer, too)
+            deps, work = [], [x]
+            seen_cd = {x}
+            while work:
+                y = work.pop()
+                for (a, _ek) in cd.get(y, ()):
+                    if (a not in region and a != h) or a in seen_cd:
+                        continue
+                    # same iteration only: the decision lies on a path to the refusal that does not go round the loop
+                    if a != h and x not in cfg.reachable(a, cut_nodes=[h]):
+                        continue
+                    seen_cd.add(a)
+                    deps.append(a)
+                    if a != h:
+                        work.append(a)
+            for a in deps:
                 term = b.blocks[a].term
                 if term.kind != "switch":
                     continue
@@ -305,8 +319,9 @@ def r7_refusals_in_loop(ctx):
                         continue
                     if lf.kind == "call" and id(lf.term) in allowed_calls:
                         continue
-                    if lf.kind == "call" and (lf.term.callee or "").startswith("std::iter::Iterator::next"):
-                        continue   # the component itself
+                    if lf.kind == "call" and (lf.term.callee or "").rsplit("::", 1)[-1] in ("next", "peek", "next_if", "len", "is_empty") and \
+                            re.search(r"OsStr|Components", " ".join(lf.term.argtys[:1])):
+                        continue   # the component itself / the queue of components (not any iterator: a directory scan is an observation)
                     bad.append(lf)
             w = "%s:%d" % (b.file, s_.line)
             if bad:
@@ -319,6 +334,14 @@ def r7_refusals_in_loop(ctx):
     return out
 
 
+def r8_base_directory(ctx):
+    """The directory the missing components are created in is the reopened handle of the partial lookup: that reopen
+    goes by descriptor through thread-self/fd/<n> (C09.R1) -- through another thread's or the leader's descriptor
+    table it would name some unrelated directory."""
+    from .c09 import reopen_by_descriptor
+    return reopen_by_descriptor(ctx, "C12.R8")
+
+
 RULES = [
     ("C12.R1", r1_mode_validation, 2, False),
     ("C12.R2", r2_creation_loop_inputs, 4, False),
@@ -327,4 +350,5 @@ RULES = [
     ("C12.R5", r5_returned_handle, 1, False),
     ("C12.R6", r6_partial_conversion, 1, False),
     ("C12.R7", r7_refusals_in_loop, 2, False),
+    ("C12.R8", r8_base_directory, 2, False),
 ]
